@@ -87,20 +87,23 @@ def cleanCfg (m : RawMinter) : Option Cfg :=
       | none => none
       | some mu => if mu < 0 then none else if step ≤ 0 then none else some (.exp a step mu)
 
+/-- `validateMinterOrderingId` fails -/
+def idBad (id seq : Nat) : Bool := if id = 0 then decide (seq ≤ 0) else decide (seq ≠ id + 1)
+/-- `validateEndTimeExistance` fails: the last minter has an end time, or another one has none -/
+def endExistBad (isLast : Bool) (e : Option Int) : Bool := (isLast && e.isSome) || (!isLast && e.isNone)
+/-- `validateMintersEndTimeValue` fails (only when lastPos > 0, and not for the last position) -/
+def endValueBad (multi isLast : Bool) (e : Option Int) (prevEnd : Int) : Bool :=
+  multi && !isLast && (match e with | some e => decide (e ≤ prevEnd) | none => false)
+
 /-- the per-position loop of `ValidateParamsMinters` over the list already sorted by sequence id.
     `id` = last seen id (0 = none yet), `prevEnd` = end time of the previous minter (start for i=0),
     `multi` = lastPos > 0. Returns the cleaned minters. -/
 def validateLoop (multi : Bool) : Nat → Int → List RawMinter → Option (List M)
   | _, _, [] => some []
   | id, prevEnd, m :: rest =>
-    -- validateMinterOrderingId
-    if (if id = 0 then m.seq ≤ 0 else m.seq ≠ id + 1) then none else
-    -- validateEndTimeExistance
-    let isLast := rest.isEmpty
-    if isLast && m.endT.isSome then none else
-    if !isLast && m.endT.isNone then none else
-    -- validateMintersEndTimeValue (only when lastPos > 0, and not for the last position)
-    if multi && !isLast && (match m.endT with | some e => decide (e ≤ prevEnd) | none => false) then none else
+    if idBad id m.seq then none else
+    if endExistBad rest.isEmpty m.endT then none else
+    if endValueBad multi rest.isEmpty m.endT prevEnd then none else
     match cleanCfg m with
     | none => none
     | some c =>
@@ -150,11 +153,15 @@ def linAmount (a start e t : Int) : Int :=
 def linPanics (start e t : Int) : Bool :=
   !(t > e) && !(t < start) && (ms e - ms start = 0)
 
+/-- `now` of `ExponentialStepMinting.AmountToMint`: the block time clamped at the period end -/
+def expNow (e : Option Int) (t : Int) : Int :=
+  match e with
+  | some e => if t > e then e else t
+  | none => t
+
 /-- `ExponentialStepMinting.AmountToMint` -/
 def expAmount (a step mult start : Int) (e : Option Int) (t : Int) : Int :=
-  let now := match e with
-    | some e => if t > e then e else t
-    | none => t
+  let now := expNow e t
   let passed := now - start
   let n := passed.tdiv step
   let nn := n.toNat
@@ -215,6 +222,18 @@ structure MintRes where
   hist : List St     -- history entries written by this call, oldest first
 deriving Repr, DecidableEq, Inhabited
 
+/-- start of the current period: the schedule start, or the previous period's end -/
+def periodStart (p : Params) (prev : Option M) : Int :=
+  match prev with
+  | none => p.start
+  | some pm => pm.endT.getD 0   -- Go dereferences *EndTime; validated params: never nil
+
+/-- the previous period has no end time (Go: nil dereference) -/
+def prevEndMissing (prev : Option M) : Bool :=
+  match prev with
+  | some pm => pm.endT.isNone
+  | none => false
+
 /-- `Keeper.mint` with recursion fuel (levels are bounded by the number of minters because the
     sequence id strictly increases and must be present in the list). -/
 def mintAux : Nat → Params → St → Int → Outcome MintRes
@@ -223,10 +242,8 @@ def mintAux : Nat → Params → St → Int → Outcome MintRes
     match getCurPrev p.minters st.seq with
     | (none, _) => .err
     | (some cur, prev) =>
-      let start := match prev with
-        | none => p.start
-        | some pm => pm.endT.getD 0   -- Go dereferences *EndTime; validated params: never nil
-      if (match prev with | some pm => pm.endT.isNone | none => false) then .panic else
+      let start := periodStart p prev
+      if prevEndMissing prev then .panic else
       if amountPanics cur start t then .panic else
       let expected := amountToMint cur start t + st.remPrev
       let amount := Dec.truncInt expected - st.minted
